@@ -133,3 +133,7 @@ T("c09-extra-logging", ["C09", "C10", "C20"], RP, "            coinstate_changed
   "            coinstate_changed = coinstate_prior.add_block_no_validation(block)\n            self.local_peer.logger.debug(\"%15s applied\" % self.host)\n")
 T("c09-early-return-dedupe", ["C09", "C10"], RP, "        if block_hash not in coinstate_prior.block_by_hash:\n\n            if block.header.summary.previous_block_hash not in coinstate_prior.block_by_hash:",
   "        if block_hash in coinstate_prior.block_by_hash:\n            return\n\n        if True:\n\n            if block.header.summary.previous_block_hash not in coinstate_prior.block_by_hash:")
+
+T("c13-cleanup-loop-form", ["C13"], MGR, "        self.transaction_pool = [t for t in self.transaction_pool if is_valid(t)]", "        self.transaction_pool = [tx for tx in self.transaction_pool if is_valid(tx)]")
+T("c13-rename-param", ["C13", "C09"], MGR, "    def set_coinstate(self, coinstate: CoinState, validated: bool = True) -> None:\n        with self.lock:\n            self.local_peer.logger.info(\"%15s ChainManager.set_coinstate(%s)\" % (\"\", coinstate))\n            self.coinstate = coinstate\n            self._cleanup_transaction_pool_for_coinstate(coinstate)\n            if validated:\n                self.last_known_valid_coinstate = coinstate",
+  "    def set_coinstate(self, new_state: CoinState, validated: bool = True) -> None:\n        with self.lock:\n            self.coinstate = new_state\n            self._cleanup_transaction_pool_for_coinstate(new_state)\n            if validated:\n                self.last_known_valid_coinstate = new_state")
